@@ -848,7 +848,7 @@ fn scenario_tpi(vname: &str, rules: &AuthorizationRules, acc: &mut Acc) {
             for (token_in_event, token_in_state) in [("tok", "tok"), ("tok", "other"), ("", "tok")] {
                 for tpi_sender in [B, A] {
                     // who signed / which keys the state event lists
-                    for (signer, listed) in [(Some(&good), vec![&good]), (Some(&other), vec![&good]), (Some(&good), vec![&other, &good]), (None, vec![&good]), (Some(&good), vec![])] {
+                    for (signer, listed) in [(Some(&good), vec![&good]), (Some(&other), vec![&good]), (Some(&good), vec![&other, &good]), (Some(&good), vec![&good, &other]), (Some(&other), vec![&good, &good]), (None, vec![&good]), (Some(&good), vec![])] {
                         for sender_membership in ["join", "leave"] {
                             let mut signed: CanonicalJsonObject = CanonicalJsonObject::new();
                             if !mxid.is_empty() {
